@@ -12,6 +12,8 @@ pub broadcast axiom fn ax_to_string_string(t: &String, s: String)
 pub struct Addr { pub s: String }
 impl Clone for Addr { #[verifier::external_body] fn clone(&self) -> (r: Self) ensures r == *self { unimplemented!() } }
 impl PartialEqSpecImpl for Addr { open spec fn obeys_eq_spec() -> bool { true } open spec fn eq_spec(&self, o: &Addr) -> bool { self.s@ == o.s@ } }
+impl<'a> PartialEq<Addr> for &'a Addr { #[verifier::external_body] fn eq(&self, o: &Addr) -> (r: bool) ensures r == (self.s@ == o.s@) { unimplemented!() } }
+impl<'a> PartialEq<&'a Addr> for Addr { #[verifier::external_body] fn eq(&self, o: &&'a Addr) -> (r: bool) ensures r == (self.s@ == o.s@) { unimplemented!() } }
 impl PartialEq<Addr> for String { #[verifier::external_body] fn eq(&self, o: &Addr) -> (r: bool) ensures r == (self@ == o.s@) { unimplemented!() } }
 impl PartialEq<String> for Addr { #[verifier::external_body] fn eq(&self, o: &String) -> (r: bool) ensures r == (self.s@ == o@) { unimplemented!() } }
 impl PartialEq for Addr { #[verifier::external_body] fn eq(&self, o: &Addr) -> (r: bool) ensures r == (self.s@ == o.s@) { unimplemented!() } }
@@ -157,6 +159,9 @@ impl<T> Path<T> {
     #[verifier::external_body]
     pub fn remove(&self, s: &mut Storage)
         ensures final(s).kv@ == old(s).kv@.remove(self.key()) { unimplemented!() }
+    /// R13 target: the real `has`
+    #[verifier::external_body]
+    pub fn has_exec(&self, s: &Storage) -> (r: bool) ensures r == self.has(s) { unimplemented!() }
 }
 impl<K: KeyEnc, T> Map<K, T> {
     pub open spec fn skey(&self, k: K) -> (int, Seq<u8>) { (self.ns as int, k.key_bytes()) }
@@ -178,6 +183,9 @@ impl<K: KeyEnc, T> Map<K, T> {
         ensures final(s).kv@ == old(s).kv@.remove(self.skey(k)) { unimplemented!() }
     #[verifier::external_body]
     pub fn has_key(&self, s: &Storage, k: K) -> (r: bool) ensures r == self.has(s, k) { unimplemented!() }
+    /// R13 target: the real `has`
+    #[verifier::external_body]
+    pub fn has_exec(&self, s: &Storage, k: K) -> (r: bool) ensures r == self.has(s, k) { unimplemented!() }
     pub open spec fn may_get(&self, s: &Storage, k: K) -> Option<T> { if self.has(s, k) { Some(self.get(s, k)) } else { None } }
     /// cw-storage-plus Map::update: may_load, apply, save the Ok value; on Err nothing is written
     #[verifier::external_body]
@@ -305,6 +313,8 @@ pub open spec fn bank_balance(q: QuerierWrapper, addr: Seq<char>, denom: Seq<cha
     match bank_answer(q, addr, denom) { Ok(c) => c.amount, Err(_) => Uint128 { v: 0 } }
 }
 pub uninterp spec fn bank_supply(q: QuerierWrapper, denom: Seq<char>) -> Uint128;
+pub struct ContractInfoResponse { pub code_id: u64, pub creator: String, pub admin: Option<String>, pub pinned: bool, pub ibc_port: Option<String> }
+pub uninterp spec fn contract_info_answer(q: QuerierWrapper, addr: Seq<char>) -> Result<ContractInfoResponse, StdError>;
 impl QuerierWrapper {
     #[verifier::external_body]
     pub fn query_balance<A: StrLike, B: StrLike>(&self, addr: A, denom: B) -> (r: Result<Coin, StdError>)
@@ -313,6 +323,11 @@ impl QuerierWrapper {
     #[verifier::external_body]
     pub fn query_wasm_smart<T>(&self, addr: impl StrLike, msg: &impl Sized) -> (r: Result<T, StdError>)
         ensures r == smart_answer::<T>(*self, addr.str_view(), ser(*msg))
+    { unimplemented!() }
+    /// chain-level contract metadata (admin = the address allowed to migrate; None when there is none)
+    #[verifier::external_body]
+    pub fn query_wasm_contract_info<A: StrLike>(&self, addr: A) -> (r: Result<ContractInfoResponse, StdError>)
+        ensures r == contract_info_answer(*self, addr.str_view())
     { unimplemented!() }
     #[verifier::external_body]
     pub fn query_supply<B: StrLike>(&self, denom: B) -> (r: Result<Coin, StdError>)
